@@ -10,7 +10,7 @@ Bug_TrailerThresholdOffByOne:C12 Bug_NoOffsetRestoreOnReopen:C12 Bug_ReaderStops
 Bug_PrevStopsAtBlockStart:C13 Bug_GetSkipsKeyCheck:C13 Bug_SeparatorInsideKey:C13
 Bug_ReaderIndexOffByOne:C14 Bug_NoFlushAtFinish:C14 Bug_FilterAssignedToNextRange:C14
 Bug_LockAfterRecovery:C17 Bug_DestroyIgnoresLock:C17 Bug_OpenTruncatesOnFailure:C17
-Bug_NoBlockCrc:C15 Bug_KeyWithoutId:C05 Bug_NoRescheduleAtEnd:C09 Bug_SlotNotCleared:C09 Bug_SeqFromManifestOnly:C01"
+Bug_NoBlockCrc:C15 Bug_KeyWithoutId:C05 Bug_NoRescheduleAtEnd:C09 Bug_SeqFromManifestOnly:C01"
 ONLY="$1"
 for item in $MAP; do
   sw=${item%%:*}; prop=${item##*:}
